@@ -5,7 +5,7 @@ use crate::docs::{self, DocParams};
 use crate::gen;
 use crate::obs::{parse_slice, run_writer, Cfg, Dest, WCall, WOpt};
 use crate::refmodel::{flatten, hex, ref_encode, Kind, NItem, Node, SizeEnc};
-use crate::spec::{v_refspec, RefSpec, ID_TAG, ID_VOID, V};
+use crate::spec::{v_refspec, RefSpec, SpecT, ID_TAG, ID_VOID, V};
 
 /// How is each unknown-size master of the document closed? (vacuity classes)
 pub fn closing_kinds(doc: &[Node]) -> Vec<&'static str> {
@@ -49,6 +49,29 @@ pub fn closing_kinds(doc: &[Node]) -> Vec<&'static str> {
     out
 }
 
+/// Does the document contain an unknown-size master whose declared path has a placeholder (a global master) and
+/// that has to be closed by a following element? (known finding D28: the library decides "sibling" by comparing
+/// declared paths, which never match for a global master)
+fn unknown_global_master_closed_by_element(rs: &RefSpec, doc: &[Node]) -> bool {
+    fn rec(rs: &RefSpec, sibs: &[Node], followed: bool) -> bool {
+        for (i, n) in sibs.iter().enumerate() {
+            if let Kind::Master(ch) = &n.kind {
+                let has_follower = followed || i + 1 < sibs.len();
+                if matches!(n.size, SizeEnc::Unknown(_)) && rs.is_global(n.id) && has_follower {
+                    return true;
+                }
+                // a follower of an enclosing master only reaches us through unknown-size masters
+                let pass = matches!(n.size, SizeEnc::Unknown(_)) && has_follower;
+                if rec(rs, ch, pass) {
+                    return true;
+                }
+            }
+        }
+        false
+    }
+    rec(rs, doc, false)
+}
+
 fn writer_calls(doc: &[Node], out: &mut Vec<WCall>) {
     for n in doc {
         match &n.kind {
@@ -84,7 +107,7 @@ pub fn run(ctx: &mut Ctx) {
         extras: true,
         all_widths: false,
     };
-    ctx.meta("rule", "cases: (tree, subset of masters encoded with unknown size, marker width); trees = every forest over V up to the node bound + the deep spines; all 2^m subsets; encoded by RefEncoder (1- and 8-byte all-ones markers) and, independently, by the real TagWriter with write_advanced(unknown). Excluded by construction: a global element as the first element after an unknown-size master's last descendant. Oracle: strict parse == flatten(tree) with RefEncoder offsets (Ends before the closing element), and == the all-known encoding's tags. Non-trivial: encodings where an unknown-size master is closed by something other than its own sibling.");
+    ctx.meta("rule", "cases: (tree, subset of masters encoded with unknown size, marker width); trees = every forest over V up to the node bound + the deep spines; all 2^m subsets; encoded by RefEncoder (1- and 8-byte all-ones markers; plus > 64 KiB documents with long headers at every alignment around the buffer boundary) and, independently, by the real TagWriter with write_advanced(unknown). Excluded by construction: a global element as the first element after an unknown-size master's last descendant. Oracle: strict parse == flatten(tree) with RefEncoder offsets (Ends before the closing element), and == the all-known encoding's tags. Non-trivial: encodings where an unknown-size master is closed by something other than its own sibling.");
     ctx.meta("bounds", &format!("forests <= {} elements over V (5 master levels), all subsets, devs <= {}", p.max_nodes, p.devs));
     ctx.meta("assumptions", "payload values irrelevant to closing decisions (default tiny payloads)");
     for c in ["closed_by_sibling", "closed_by_element_one_level_up", "closed_by_element_two_or_more_levels_up", "closed_by_enclosing_known_size_end", "closed_by_end_of_input", "writer_encodings", "buffer_boundary_docs"] {
@@ -115,14 +138,25 @@ pub fn run(ctx: &mut Ctx) {
         // one encoding deviation (8-byte unknown marker / 8-byte size field) on the forests up to 6 elements
         plist.push(DocParams { max_nodes: 6, devs: 1, ..p.clone() });
     }
+    sweep::<V>(ctx, &rs, plist, "V");
+    // the second macro-derived specification: placeholders in trailing and intermediate position, a global MASTER
+    // (0-1)/G that may nest in anything once, and a global leaf (2-3)/H
+    let w = crate::spec::w_refspec();
+    crate::spec::assert_spec_matches::<crate::spec::W>(&w);
+    let pw = DocParams { max_nodes: ctx.tier.pick(5, 6), globals: vec![0x96, 0xa7, ID_VOID], exclude: vec![], unknown_subsets: true, devs: 0, payload_classes: false, big_payloads: false, noncanonical: false, width_devs: false, extras: false, all_widths: false };
+    sweep::<crate::spec::W>(ctx, &w, vec![pw], "W");
+}
+
+fn sweep<T: SpecT>(ctx: &mut Ctx, rs: &RefSpec, plist: Vec<DocParams>, label: &str) {
+    let cfg = Cfg::strict();
     for p in plist {
-    docs::for_each_doc(ctx, &rs, &p, &mut |ctx, doc| {
-        if gen::has_ambiguous_global_after_unknown(&rs, doc) {
+    docs::for_each_doc(ctx, rs, &p, &mut |ctx, doc| {
+        if gen::has_ambiguous_global_after_unknown(rs, doc) {
             ctx.count("excluded_ambiguous_global", 1);
             return true;
         }
         let kinds = closing_kinds(doc);
-        let d = || format!("doc=[{}]", docs::doc_short(&rs, doc));
+        let d = || format!("{} doc=[{}]", label, docs::doc_short(rs, doc));
         if !ctx.enter(&d) {
             return true;
         }
@@ -134,25 +168,33 @@ pub fn run(ctx: &mut Ctx) {
         }
         let (bytes, lay) = ref_encode(doc);
         let want = flatten(doc, &lay);
-        let obs = parse_slice::<V>(&bytes, &cfg);
+        let obs = parse_slice::<T>(&bytes, &cfg);
         ctx.transitions += obs.items.len() as u64 + 1;
         ctx.outcome(&(obs.items.len(), kinds.len()));
-        if obs.items != want || !obs.clean() {
+        let d28 = unknown_global_master_closed_by_element(rs, doc);
+        if d28 {
+            ctx.count("unknown_size_global_master_closed_by_an_element", 1);
+        }
+        if (obs.items != want || !obs.clean()) && d28 {
+            ctx.violation("unknown-size-global-master/not-closed-by-the-following-element", &d, &format!("bytes={} expected [{}] observed {}", hex(&bytes), want.iter().map(|(i, o)| format!("{}@{}", i.short(), o)).collect::<Vec<_>>().join(" "), obs.short()));
+        } else if obs.items != want || !obs.clean() {
             let key = format!("ref-encoded/{}", kinds.iter().filter(|k| **k != "closed_by_sibling").next().unwrap_or(&"closed_by_sibling"));
             ctx.violation(&key, &d, &format!("bytes={} expected [{}] observed {}", hex(&bytes), want.iter().map(|(i, o)| format!("{}@{}", i.short(), o)).collect::<Vec<_>>().join(" "), obs.short()));
         }
         // the same tree through the real writer (unknown-size starts via write_advanced)
         let mut calls = Vec::new();
         writer_calls(doc, &mut calls);
-        let run = run_writer::<V>(&calls, Dest::default());
+        let run = run_writer::<T>(&calls, Dest::default());
         ctx.transitions += calls.len() as u64 + 1;
         let accepted = run.results.iter().all(|r| r.is_ok()) && run.fin.is_ok();
         if accepted {
             ctx.count("writer_encodings", 1);
-            let obs2 = parse_slice::<V>(&run.out, &cfg);
+            let obs2 = parse_slice::<T>(&run.out, &cfg);
             ctx.transitions += obs2.items.len() as u64 + 1;
             let want_items: Vec<NItem> = want.iter().map(|x| x.0.clone()).collect();
-            if obs2.item_list() != want_items || !obs2.clean() {
+            if (obs2.item_list() != want_items || !obs2.clean()) && d28 {
+                ctx.violation("unknown-size-global-master/not-closed-by-the-following-element", &d, &format!("writer output {} reads as {}", hex(&run.out), obs2.short()));
+            } else if obs2.item_list() != want_items || !obs2.clean() {
                 ctx.violation("writer-encoded/tags-differ", &d, &format!("writer output {} reads as {}", hex(&run.out), obs2.short()));
             }
         } else {
